@@ -57,7 +57,7 @@ def compose(ops, protocol=True, mt=None, logical=False, tid=None, rank=None):
     lines += ["thread_init %d" % tid] + (["cpu %d %d" % (c, c) for c in range(nth)] if k == 0 else [])
     if rank is not None and k == 0:
         lines.append("rank %d %d" % rank)       # the process belongs to an MPI job: set by one thread only
-    lines += ["mark_type 1 0 verifmark"]
+    lines += ["mark_type 1 0 verifmark", "mark_type 2 1 verifstack"]
     if logical:
         lines.append("clockmode logical")     # the program's own time base: 0, 100, 200, ...
     recs = [("thread_init", {"op": "thread_init"})]
@@ -83,6 +83,12 @@ def compose(ops, protocol=True, mt=None, logical=False, tid=None, rank=None):
             lines.append("mark_set 1 %d" % i)
             recs.append(("mark_set", {"op": "emit", "pay": 12, "kind": "m", "id": i}))
             table[i] = ("OM=", struct.pack("<qi", i, 1), None)
+        elif o["op"] == "emit" and o.get("kind") in ("M[", "M]"):
+            # stack mark: push / pop of the value o["v"] (the same value may be nested in itself)
+            i = new_id()
+            lines.append("mark_%s 2 %d" % ("push" if o["kind"] == "M[" else "pop", o["v"]))
+            recs.append(("mark_push" if o["kind"] == "M[" else "mark_pop", {"op": "emit", "pay": 12, "kind": "m", "id": i}))
+            table[i] = ("O" + o["kind"], struct.pack("<qi", o["v"], 2), None)
         elif o["op"] == "emit":
             i = nid[0] + 1
             p = o["pay"]
@@ -223,7 +229,7 @@ def interpret(lp, recs, table, td, tid, rc, err, pid=1000):
         # map driver log lines to model records (skipping non-stream ops)
         ri = 0
         clk_of = {}
-        want_ops = {"thread_init", "emitraw", "mark_set", "jumbo", "flush", "free"}
+        want_ops = {"thread_init", "emitraw", "mark_set", "mark_push", "mark_pop", "jumbo", "flush", "free"}
         aborted = False
         for ent in log:
             if ent["op"] not in want_ops:
@@ -267,9 +273,11 @@ def interpret(lp, recs, table, td, tid, rc, err, pid=1000):
             except obs.DecodeError as ex:
                 problems.append("stream does not tile: %s" % ex)
                 evs = obs.decode(data, strict=False) if data[:4] == b"ovni" else []
+            # events with the same bytes (two pushes of the same mark value) are interchangeable: the k-th such
+            # event on disk is the k-th one emitted
             inv = {}
-            for i, (mcv, payload, j) in table.items():
-                inv[(mcv, payload)] = i
+            for i, (mcv, payload, j) in sorted(table.items()):
+                inv.setdefault((mcv, payload), []).append(i)
             clocks = sorted(set(e["clock"] for e in evs))
             rank = {c: k for k, c in enumerate(clocks)}
             for e in evs:
@@ -280,7 +288,8 @@ def interpret(lp, recs, table, td, tid, rc, err, pid=1000):
                 elif e["mcv"] == "OF]" and not e["payload"] and not e["jumbo"]:
                     k = "e"
                 else:
-                    idv = inv.get((e["mcv"], e["payload"]), -1)
+                    q_ = inv.get((e["mcv"], e["payload"]))
+                    idv = (q_.pop(0) if len(q_) > 1 else q_[0]) if q_ else -1
                     if idv > 0:
                         mcv, payload, j = table[idv]
                         if (j is not None) != e["jumbo"]:
@@ -502,6 +511,17 @@ def main(pid, tier):
     scripts = scripts + small
     # programs with a time base of their own that starts at ZERO (no mark, no flush before the end: those are
     # stamped by the library with its own clock): the clocks handed over are the clocks in the stream
+    # stack marks: nested pushes of different and of EQUAL values, popped in order
+    def P(v):
+        return {"op": "emit", "kind": "M[", "pay": 12, "v": v}
+
+    def Q(v):
+        return {"op": "emit", "kind": "M]", "pay": 12, "v": v}
+    stackm = [[P(7), Q(7)], [P(7), P(8), Q(8), Q(7)], [P(7), P(7), Q(7), Q(7)], [P(7), P(7), P(7), Q(7), Q(7), Q(7)],
+              [P(7), {"op": "flush"}, P(7), Q(7), {"op": "flush"}, Q(7)]]
+    results += core.pmap(lambda ops: run_script(drv, bdir, ops, want_emu), stackm, workers=4)
+    scripts = scripts + stackm
+    ck.notes["scripts"]["stack_mark_programs"] = len(stackm)
     own = [[{"op": "emit", "pay": 8, "kind": "u"}], [{"op": "emit", "pay": 0, "kind": "u"}, {"op": "emit", "pay": 16, "kind": "u"}],
            [{"op": "jumbo", "n": 100}], [{"op": "emit", "pay": 2, "kind": "u"}, {"op": "jumbo", "n": 40}, {"op": "emit", "pay": 12, "kind": "u"}],
            []]
